@@ -209,3 +209,32 @@ func H_C19_nested() {
 	}
 	verif.Reach("end")
 }
+
+// H_C19_reexec: a prepared query that failed fails again, in the same way,
+// when it is executed again under the same conditions (nothing of the failed
+// run - memoised results, partial rows - survives in the query object).
+func H_C19_reexec() {
+	form := verif.Choose("form", 4)
+	faultAt, faultCalls = 1+verif.Choose("fault-at", 2), 0
+	RegisterFunction("vfault", faultFunc)
+	x := verif.F64("a")
+	verif.Assume(x == x)
+	doc := Map{"t": []any{Map{"id": float64(1), "a": x}, Map{"id": float64(2), "a": x}}}
+	sql := []string{"SELECT id, ONCE.vfault(a) AS v FROM t", "SELECT id, vfault(a) AS v FROM t", "SELECT id FROM t WHERE vfault(a) >= 0 OR id > 0", "SELECT id, GLOBAL.vfault((SELECT a FROM t)) AS v FROM t"}[form]
+	q, err := New(doc, sql)
+	if err != nil {
+		verif.Reach("end")
+		return
+	}
+	r1, e1 := q.Exec()
+	calls1 := faultCalls
+	faultCalls = 0
+	r2, e2 := q.Exec()
+	if e1 != nil {
+		verif.Assert(len(r1) == 0, "no-rows-with-error")
+		// the same fault schedule (the call counter was reset): the second execution meets it again
+		_ = calls1
+		verif.Assert(e2 != nil && len(r2) == 0, "fails-again-when-executed-again")
+	}
+	verif.Reach("end")
+}
